@@ -28,7 +28,9 @@ CP1252 = [bytes([i]).decode("cp1252") for i in range(1, 256) if i not in (0x81, 
 
 
 class Values:
-    def __init__(self, r=0, specials=True, zero_new=False):
+    def __init__(self, r=0, specials=True, zero_new=False, huge=False, adjacent=False):
+        self.huge = huge          # every float near the top of its range (sums of two overflow)
+        self.adjacent = adjacent  # consecutive ids map to consecutive representable floats
         self.r = r
         self.specials = specials
         self.zero_new = zero_new  # ids 900..999 (samples that appear in a mutant) become exactly 0.0
@@ -47,6 +49,17 @@ class Values:
             return np.float32(0.0) if ty == "f32" else np.float64(0.0)
         if key in self.f:
             return self.f[key]
+        if self.huge or self.adjacent:
+            if self.huge:
+                val = (3.0e38 - vid * 1.0e32) if ty == "f32" else (1.7e308 - vid * 1.0e300)
+                val = np.float32(val) if ty == "f32" else np.float64(val)
+            else:
+                one = np.float32(12.5) if ty == "f32" else np.float64(12.5)
+                bits = one.view("<u4" if ty == "f32" else "<u8") + np.array(vid, dtype="<u4" if ty == "f32" else "<u8")
+                val = bits.view("<f4" if ty == "f32" else "<f8")
+            self.f[key] = val
+            self.fr[(ty, val.tobytes())] = vid
+            return val
         pool = F32_SPECIALS if ty == "f32" else F64_SPECIALS
         slot = (vid * 7 + self.r * 13) % 97
         val = None
@@ -132,3 +145,23 @@ def pack_prim(ty, value):
     if ty in ("f32", "f64"):
         return (np.float32(value) if ty == "f32" else np.float64(value)).tobytes()
     return struct.pack(PRIM[ty], int(value))
+
+
+class ChanZeroValues(Values):
+    """the k-th distinct 16-bit integer payload asked for (channel / camera numbers) is 0 - the
+    value an `if not channel` test mistakes for 'not given'"""
+
+    def __init__(self, r, k):
+        super().__init__(r, specials=False)
+        self.k = k
+        self.seen16 = []
+
+    def int(self, pool, vid):
+        if pool in ("i16", "u16", "u15"):
+            if vid not in self.seen16:
+                self.seen16.append(vid)
+            if self.seen16.index(vid) == self.k:
+                self.i[(pool, vid)] = 0
+                self.ir[(pool, 0)] = vid
+                return 0
+        return super().int(pool, vid)
